@@ -49,6 +49,7 @@ type RunSpec struct {
 	AllowPanic bool             `json:"allow_panic"`
 	Cross      string           `json:"cross_solver"` // thorough: re-run on this solver and compare
 	What       string           `json:"what"`
+	NativeS    int              `json:"native_timeout_s"` // wall-clock limit of one native replay (default 20)
 }
 
 type KnownFinding struct {
@@ -261,6 +262,10 @@ func checkMain(args []string) int {
 				problems = append(problems, fmt.Sprintf("%s: vacuous: witness %q not reached", rs.Name, lbl))
 			}
 		}
+		natT := 20 * time.Second
+		if rs.NativeS > 0 {
+			natT = time.Duration(rs.NativeS) * time.Second
+		}
 		// --- native replayer on demand
 		needNative := rs.Replay == "native"
 		if needNative && rep == nil {
@@ -334,7 +339,7 @@ func checkMain(args []string) int {
 					}
 				}
 				if needNative && rep != nil && v.kind != "hang" {
-					out := rep.run(v.entry, v.bounds, v.hvals, 20*time.Second, v.env)
+					out := rep.run(v.entry, v.bounds, v.hvals, natT, v.env)
 					if !out.matches(v) {
 						spurious++
 						fmt.Printf("UNCONFIRMED (native replay against the real build does not reproduce): %s %s %q native=%s\n", v.entry, v.kind, v.msg, out.summary())
@@ -362,7 +367,7 @@ func checkMain(args []string) int {
 					continue
 				}
 				validationTried++
-				out := rep.run(s.Entry, s.Bounds, s.Inputs, 20*time.Second, s.Env)
+				out := rep.run(s.Entry, s.Bounds, s.Inputs, natT, s.Env)
 				if out.agrees(s) {
 					validated++
 				} else {
